@@ -128,6 +128,8 @@ def main():
         return replay_file(prop, args.replay)
     t0 = time.time()
     tier = args.tier
+    import shutil
+    shutil.rmtree(os.path.join(VERIF, "replays", prop), ignore_errors=True)     # replays of earlier runs are stale
     # 1+2 prove
     nobl, ndis, pf, axioms, plog = prove(prop, spec["modules"])
     # 3 build
